@@ -32,6 +32,7 @@ type LiveOpts struct {
 	LoginTO     int
 	Password    string
 	Brief       bool
+	NoLogDir    bool // drc without -L
 	// Device behaviour knobs (legal variants).
 	HostKeyQ, NeedEnPw, NoEnable, PromptSp, PagerSet, WidthSet, LegalWarn, JoinReplies bool
 	SaveConfirm                                                                        bool
@@ -142,6 +143,9 @@ func (c *Ctx) LiveCisco(cs *CiscoCase, o LiveOpts, sched *tape.Tape) *LiveResult
 	mainFn := drc.Main
 	if o.Front == "drc" {
 		args = []string{"drc", "-L", w.LogDir()}
+		if o.NoLogDir {
+			args = []string{"drc"}
+		}
 		if o.Compare {
 			args = append(args, "-C")
 		}
